@@ -97,6 +97,23 @@ def slice {α} (l : List α) (a b : Int) : List α :=
 /-- `seq[a:]` -/
 def sliceFrom {α} (l : List α) (a : Int) : List α := l.drop (normIdx l.length a)
 
+/-- `b[a:] = v` on a bytearray (the tail from `a` on is replaced; the size may change) -/
+def setSliceFrom {α} (l : List α) (a : Int) (v : List α) : List α := l.take (normIdx l.length a) ++ v
+
+/-- `b[a:b] = v` on a bytearray (step 1: a splice; an upper bound below the lower one counts as the lower one) -/
+def setSlice {α} (l : List α) (a b : Int) (v : List α) : List α :=
+  l.take (normIdx l.length a) ++ v ++ l.drop (max (normIdx l.length a) (normIdx l.length b))
+
+/-- `bytearray(n)` for an int `n`: `n` zero bytes; `ValueError` for a negative count, `OverflowError` when `n` does
+    not fit `Py_ssize_t` (a `MemoryError` for a count the machine cannot allocate is not modelled) -/
+def bytearrayOfSize (n : Int) : Except PyErr Bytes :=
+  if n < 0 then .error .valueError
+  else if 9223372036854775807 < n then .error .overflowError
+  else .ok (List.replicate n.toNat 0)
+
+/-- `int.from_bytes(x, 'big')` (unsigned) -/
+def intFromBytesBig (x : Bytes) : Int := ((beVal x : Nat) : Int)
+
 /-- `len(x)` -/
 def len {α} (l : List α) : Int := (l.length : Nat)
 
